@@ -327,8 +327,23 @@ def parse_parse(text):
                          r'_vm\.at\("(\w+)"\)\.value\(\)\s*=\s*_vm\["(\w+)"\]\.value\(\)|'
                          r'if\s*\(_vm\.count\("(\w+)"\)\)|'
                          r'_configfile\s*==\s*"([^"]*)"|_configfile\s*!=\s*"([^"]*)"|'
-                         r"return (true|false)", body):
+                         r"return (true|false)|"
+                         r"(po::)?store\(\s*(po::)?command_line_parser\(\s*ac\s*,\s*av\s*\)((?:\s*\.\w+\((?:[^()]|\([^()]*\))*\))+)\s*,\s*_vm\)",
+                         body):
         s = m.group(0)
+        if m.group(14) is not None:
+            # builder form: command_line_parser(ac, av).options(X).positional(<empty description>).run()
+            chain = re.findall(r"\.(\w+)\(((?:[^()]|\([^()]*\))*)\)", m.group(14))
+            names = [c[0] for c in chain]
+            if names[-1:] != ["run"] or names.count("options") != 1 or any(n not in ("options", "positional", "run") for n in names):
+                raise Unsupported("command_line_parser chain: %r" % names)
+            ev.append("store_cli:" + dict(chain)["options"].strip())
+            if "positional" in names:
+                if re.sub(r"\s", "", dict(chain)["positional"]) not in ("po::positional_options_description()",
+                                                                        "positional_options_description()"):
+                    raise Unsupported("positional options are described: %r" % dict(chain)["positional"])
+                ev.append("no_positional")
+            continue
         if s.startswith("for") and "option_aliases" in s:
             ev.append("aliasloop")
         elif "alias.first" in s and s.startswith("if"):
